@@ -19,7 +19,10 @@ RULE = ("use/forward graphs: files in.scss, a.scss, b.scss, c.scss (+ d/x.scss s
         "counter through the namespace. For every ordered pair i<j: no edge, one edge or two edges, each @use or @forward "
         "spelled `n`, `./n` or `d/../n` (43 options per pair). quick: every 2-file graph, 3000 sampled 3-file graphs, 400 "
         "random 4-file graphs with back edges; thorough: every 2- and 3-file graph (43^3), 5000 random 4-file graphs. Extra "
-        "strata: the same with an @import edge in between and with the spelling `m//n`. non-trivial = some module is the "
+        "strata: the same with an @import edge in between and with the spelling `m//n`; configured loads (`@use … with`, "
+        "`@forward … with`) of modules also loaded unconfigured earlier/later (all 3-file combinations + 800 random); users in "
+        "sub-directories two levels deep reaching a module as `../m`, `./../m`, `t/../../m`, `../../m` (686 exhaustive + 1500 "
+        "random). non-trivial = some module is the "
         "target of at least two load statements")
 TRUSTED = ["harness/src/ops/c02.rs (virtual loader, SCSS rendering of markers and counter reads)",
            "props/_load.py: Python statement (which file each url denotes; execution count; counter sequence)"]
@@ -41,7 +44,7 @@ def graph_case(n, edges, stratum, spell=SPELL, extra_files=()):
             if a != i:
                 continue
             items.append(k + spell[s].format(n=NAMES[j]))
-            if k == "u":
+            if k in "uU":
                 items.append(f"b{len(items) - 1}.{tags[j]}")
         files.append((NAMES[i] + ".scss", items))
     files.append(("d/x.scss", ["m"]))
@@ -79,6 +82,8 @@ def gen(tier, rng, boost=1):
             i, j = sorted(rng.sample(range(n), 2))
             edges.append((i, j, rng.choice("uufi"), rng.choice([0, 0, 1, 2])))
         yield graph_case(n, edges, "with-import")
+    yield from configured_cases(rng, quick, boost)
+    yield from subdir_cases(rng, quick, boost)
     # spellings with an empty path segment
     sp2 = ["{n}", "d//../{n}", ".//{n}"]
     for _ in range((100 if quick else 1000) * boost):
@@ -91,6 +96,92 @@ def gen(tier, rng, boost=1):
     for opt in PAIR_OPTS[:12]:
         files = [("in.scss", ["m"] + [x for k, s in opt for x in [k + ["m/lib", "m//lib", "./m/lib"][s]]]), ("m/lib.scss", ["m"])]
         yield Case(L.line(files), "empty-segment", {"multi": len(opt) > 1})
+
+
+CFG_OPTS = [[], ["u"], ["U"], ["f"], ["F"], ["u", "U"], ["U", "u"], ["f", "U"], ["F", "u"]]
+
+
+def configured_cases(rng, quick, boost):
+    """`@use … with (…)` / `@forward … with (…)` of modules that are also loaded unconfigured earlier or later
+    (Sass: executed once; configuring a module that is already loaded is an error)"""
+    pairs = [(0, 1), (0, 2), (1, 2)]
+    for combo in itertools.product(CFG_OPTS, repeat=3):
+        edges = [(i, j, k, 0) for (i, j), opt in zip(pairs, combo) for k in opt]
+        if any(k in "UF" for _, _, k, _ in edges):
+            yield graph_case(3, edges, "configured")
+            yield graph_case(3, [e for e in edges if e[1] == 2] + [e for e in edges if e[1] != 2], "configured")
+    for _ in range((800 if quick else 8000) * boost):
+        n = rng.randint(3, 4)
+        edges = []
+        for _ in range(rng.randint(2, 6)):
+            i, j = sorted(rng.sample(range(n), 2))
+            edges.append((i, j, rng.choice("uufUUF"), rng.choice([0, 0, 1, 2])))
+        rng.shuffle(edges)
+        yield graph_case(n, edges, "configured-random")
+
+
+SUB_FILES = ["in.scss", "sub/a.scss", "sub/b.scss", "sub/t/c.scss", "m.scss", "sub/_index.scss"]
+SUB_SPELL = {
+    (0, 4): ["m", "./m", "sub/../m"], (0, 1): ["sub/a"], (0, 2): ["sub/b", "sub/t/../b"], (0, 3): ["sub/t/c"],
+    (1, 4): ["../m", "./../m", "t/../../m"], (2, 4): ["../m", "./../m", "t/../../m"],
+    (3, 4): ["../../m", "../t/../../m", "./../../m"], (1, 2): ["b", "../sub/b"], (1, 3): ["t/c"], (2, 3): ["t/c", "./t/c"],
+    (3, 1): ["../a"], (3, 2): ["../b", "./../b"],
+    # the index file of a directory, reached as the directory itself
+    (0, 5): ["sub", "sub/t/.."], (1, 5): [".", "../sub", "t/.."], (2, 5): [".", "./."], (3, 5): ["..", "./.."],
+}
+
+
+def subdir_case(edges, stratum):
+    """edges: (src index, dst index, kind code, url) — users of a module in sub-directories, reaching it as `../m`"""
+    files = []
+    for i, path in enumerate(SUB_FILES):
+        items = ["m"]
+        for (a, j, k, u) in edges:
+            if a == i:
+                items.append(k + u)
+                if k in "uU":
+                    items.append(f"b{len(items) - 1}.{j}")
+        files.append((path, items))
+    multi = any(sum(1 for e in edges if e[1] == j) >= 2 for j in range(len(SUB_FILES)))
+    return Case(L.line(files), stratum, {"multi": multi})
+
+
+def subdir_cases(rng, quick, boost):
+    def opts(pair):
+        return [None] + [(k, u) for u in SUB_SPELL[pair] for k in "uf"]
+    for oa in opts((1, 4)):
+        for ob in opts((2, 4)):
+            for oi in opts((0, 4)):
+                for first in (True, False):
+                    e = [(0, 1, "u", "sub/a"), (0, 2, "u", "sub/b")]
+                    if oa:
+                        e.append((1, 4, oa[0], oa[1]))
+                    if ob:
+                        e.append((2, 4, ob[0], ob[1]))
+                    if oi:
+                        e.insert(0 if first else 2, (0, 4, oi[0], oi[1]))
+                    elif not first:
+                        continue
+                    yield subdir_case(e, "subdir")
+    for s0 in SUB_SPELL[(0, 5)]:
+        for src in (1, 2, 3):
+            for u in SUB_SPELL[(src, 5)]:
+                for k0 in "uf":
+                    for k1 in "uf":
+                        first = (0, src, "u", SUB_SPELL[(0, src)][0])
+                        yield subdir_case([(0, 5, k0, s0), first, (src, 5, k1, u)], "subdir")
+                        yield subdir_case([first, (src, 5, k1, u), (0, 5, k0, s0)], "subdir")
+    keys = [p for p in SUB_SPELL if p[0] < p[1] or p[0] == 3]
+    for _ in range((1500 if quick else 15000) * boost):
+        edges, seen = [], set()
+        for _ in range(rng.randint(3, 7)):
+            p = rng.choice(keys)
+            if p in seen or (p[1], p[0]) in seen:
+                continue
+            seen.add(p)
+            edges.append((p[0], p[1], rng.choice("uuf"), rng.choice(SUB_SPELL[p])))
+        edges.sort(key=lambda e: rng.random())
+        yield subdir_case(edges, "subdir-random")
 
 
 def statement(pc, im):
